@@ -532,6 +532,68 @@ def gen(repo):
     if not m or "config_opts.apply(&mut config)?;" not in ib or ib.index("config_opts.apply(&mut config)?;") > ib.index("init_with_config("):
         raise ExtractError("init: ConfigFile::new(version, ..) followed by config_opts.apply before init_with_config not found")
     out.append("Definition INIT_VERSION : Z := %s." % m.group(1))
+    # ---- what is stored: save_config / save_config_hot / init / init_with_config / open
+    MARK = {"None": "None", "Some(true)": "(Some 1)", "Some(false)": "(Some 0)"}
+    def save_stmts(body, fn, allow_call):
+        res, target = [], None
+        for k, v in split_stmts(body):
+            if k != "stmt": raise ExtractError("%s: unexpected control flow: %r" % (fn, v))
+            mm = re.fullmatch(r"new_config\.is_hot = (None|Some\(true\)|Some\(false\))", v)
+            if mm: res.append("SMarkHot %s" % MARK[mm.group(1)]); continue
+            mm = re.fullmatch(r"let dbe = DecryptBackend::new\((repo\.be|hot_be)\.clone\(\), key\)", v)
+            if mm: target = "SWriteCold" if mm.group(1) == "repo.be" else "SWriteHot"; continue
+            if v == "_ = dbe.save_file_uncompressed(&new_config)?":
+                if target is None: raise ExtractError("%s: save before a backend is chosen" % fn)
+                res.append(target); continue
+            if allow_call and v == "save_config_hot(repo, new_config, key)":
+                res.append("SCallHot"); continue
+            if v == "Ok(())": continue
+            raise ExtractError("%s: statement not recognised: %s" % (fn, v))
+        return res
+    if not re.search(r"\(\s*repo: &Repository<S>,\s*(mut )?new_config: ConfigFile,\s*key: impl CryptoKey,?\s*\)", fn_sig(cfg, "save_config")) \
+       or not re.search(r"\(\s*repo: &Repository<S>,\s*(mut )?new_config: ConfigFile,\s*key: impl CryptoKey,?\s*\)", fn_sig(cfg, "save_config_hot")):
+        raise ExtractError("save_config / save_config_hot signature changed (new_config must be taken by value)")
+    sc_stmts = save_stmts(fn_body(cfg, "save_config"), "save_config", True)
+    if sc_stmts.count("SCallHot") != 1 or sc_stmts[-1] != "SCallHot": raise ExtractError("save_config does not end with save_config_hot(repo, new_config, key)")
+    hb = split_stmts(fn_body(cfg, "save_config_hot"))
+    if len(hb) != 2 or hb[0][0] != "if" or len(hb[0][1]) != 1 or " ".join(hb[0][1][0][0].split()) != "let Some(hot_be) = repo.be_hot.clone()" or hb[1] != ("stmt", "Ok(())"):
+        raise ExtractError("save_config_hot is no longer `if let Some(hot_be) = repo.be_hot.clone() { .. } Ok(())`")
+    sh_stmts = save_stmts(hb[0][1][0][1], "save_config_hot", False)
+    out.append("Definition save_config_stmts : list sstmt := [%s]." % "; ".join(sc_stmts))
+    out.append("Definition save_config_hot_stmts : list sstmt := [%s]." % "; ".join(sh_stmts))
+    before = after = False; seen_apply = seen_write = False
+    for k, v in split_stmts(fn_body(ini, "init")):
+        if k == "if":
+            if len(v) != 1 or " ".join(v[0][0].split()) != "repo.be_hot.is_some()" or " ".join(v[0][1].split()) != "config.is_hot = Some(true);":
+                raise ExtractError("init: conditional not recognised: if %s" % v[0][0])
+            if seen_write: after = True
+            elif not seen_apply: before = True
+            else: raise ExtractError("init: hot marker set between apply and the write")
+            continue
+        if k != "stmt": raise ExtractError("init: unexpected control flow")
+        if v == "config_opts.apply(&mut config)?": seen_apply = True; continue
+        if v == "let (key, key_id) = init_with_config(repo, credentials, key_opts, &config)?":
+            if not seen_apply: raise ExtractError("init: config written before the options are applied")
+            seen_write = True; continue
+        if re.fullmatch(r"let repo_id = RepositoryId::from\(Id::random\(\)\)|let chunker_poly = random_poly\(\)\?|let mut config = ConfigFile::new\(\d+, repo_id, chunker_poly\)|info!\(.*\)|Ok\(\(key, key_id, config\)\)", v): continue
+        raise ExtractError("init: statement not recognised: " + v)
+    if not (seen_apply and seen_write): raise ExtractError("init: apply / init_with_config not found")
+    out.append("Definition init_marks_hot_before_apply : bool := %s." % ("true" if before else "false"))
+    out.append("Definition init_marks_hot_after_write : bool := %s." % ("true" if after else "false"))
+    iwc = " ".join(fn_body(ini, "init_with_config").split())
+    if not re.fullmatch(r"repo\.be\.create\(\)\?; let \(key, id\) = match credentials \{.*?\}; save_config\(repo, config\.clone\(\), key\)\?; Ok\(\(key, id\)\)", iwc):
+        raise ExtractError("init_with_config: create / key / save_config(repo, config.clone(), key) shape not found")
+    rp = read(repo, "crates/core/src/repository.rs")
+    rib = " ".join(fn_body(rp, "init").split())
+    if not rib.endswith("let (key, key_id, config) = commands::init::init(&self, credentials, key_opts, config_opts)?; self.open_raw(key, key_id, config)"):
+        raise ExtractError("Repository::init no longer ends with commands::init::init(..)? ; self.open_raw(key, key_id, config)")
+    omb = " ".join(fn_body(rp, "open_may_use_hot").split())
+    m = re.search(r"let be = if use_hot \{ self\.be\.clone\(\) \} else \{ (?:// warm-up config file )?self\.warm_up_wait\(std::iter::once\(config_id\)\)\?; self\.be_cold\.clone\(\) \}; let dbe = DecryptBackend::new\(be, key\); let mut config: ConfigFile = dbe\.get_file\(&config_id\)\?; (if !use_hot && self\.be_hot\.is_some\(\) \{ config\.is_hot = Some\(true\); \} )?self\.open_raw\(key, key_id, config\)$", omb)
+    if not m: raise ExtractError("open_may_use_hot: reading the config and the open_only_cold hot marker not found in the expected shape")
+    out.append("Definition open_only_cold_marks_hot : bool := %s." % ("true" if m.group(1) else "false"))
+    orb = " ".join(fn_body(rp, "open_raw").split())
+    if not re.match(r"match \(config\.is_hot == Some\(true\), self\.be_hot\.is_some\(\)\) \{ \(true, false\) => \{ return Err\(.*?\); \} \(false, true\) => \{ return Err\(.*?\); \} _ => \{\} \}", orb):
+        raise ExtractError("open_raw: the is_hot / be_hot consistency match not found in the expected shape")
     # ---- PackSizer
     pconsts = {}
     for c in ["KB", "MB", "MAX_SIZE"]:
